@@ -109,6 +109,7 @@ PROPS = {
         "assumptions": ["the scripted peer's writes are consumed by the server at the virtual instant they are issued"],
         "units": [
             {"pkg": S, "test": "TestVerifC07", "quick": (16, 1000), "thorough": (16, 20000), "timeout_q": 1500},
+            {"pkg": S, "test": "TestVerifC07_active", "quick": (16, 400), "thorough": (16, 20000), "timeout_q": 1500},
         ],
     },
     "C05": {
